@@ -766,7 +766,13 @@ func spendTaproot(r *vlib.Rand, res *result, forceNoDigest bool) {
 	} else {
 		pk := push(k.xpub)
 		pos := uint32(0xffffffff)
-		switch r.Intn(5) {
+		switch r.Intn(7) {
+		case 5, 6:
+			// the position is a 32-bit opcode count; tapscript has neither a size nor an opcode limit
+			n := []int{65535, 65536, 65537, 65613, 70000, 131072}[r.Intn(6)]
+			name = fmt.Sprintf("scriptpath/codesep@%d", n)
+			tapscript = cat(bytes.Repeat([]byte{0x61}, n), []byte{opCodeSep}, pk, []byte{0xac})
+			pos = uint32(n)
 		case 0:
 			name = "scriptpath/plain"
 			tapscript = cat(pk, []byte{0xac})
